@@ -1,5 +1,6 @@
 (** C12 — proofs about the collection- and alignment-level get_translation. *)
-From CG3 Require Import Lib.PyZ Lib.Val Model.GeneticCode Spec.GeneticCodeSpec Proofs.GeneticCodeProofs.
+From CG3 Require Import Lib.PyZ Lib.Val Model.GeneticCode Spec.GeneticCodeSpec Proofs.GeneticCodeProofs
+  Proofs.GeneticCodeDegenDefs.
 From CG3gen Require Import GCTables.
 
 (* ------------------------------------------------------------------ generic *)
@@ -585,12 +586,6 @@ Qed.
 
 (* ------------------------------------------------------------------ degenerate codons (old Sequence.get_translation) *)
 
-Definition iupac_syms : list Z := map fst iupac_dna.
-Definition option_Z_eqb (a b : option Z) : bool :=
-  match a, b with Some x, Some y => x =? y | None, None => true | _, _ => false end.
-Lemma option_Z_eqb_sound a b : option_Z_eqb a b = true -> a = b.
-Proof. destruct a, b; cbn; try discriminate; intros H; [f_equal; lia|reflexivity]. Qed.
-
 (** a codon without "-": incomplete_ok plays no role *)
 Lemma assoc_str_In {A} u (ks : list str) (vs : list A) a :
   assoc_str u (combine ks vs) = Some a -> In u ks.
@@ -634,12 +629,6 @@ Proof.
   intros u Hu. destruct (HR l eq_refl u Hu) as [E|E]; rewrite E; reflexivity.
 Qed.
 
-(** every code x 15^3 codons of IUPAC symbols, for one value of include_stop (incomplete_ok = false;
-    it is irrelevant by [old_codon_ok_irrelevant]); evaluated in Proofs/GeneticCodeDegenA/B.v *)
-Definition degenerate_check (inc : bool) (e : Z * list Z * list Z) : bool :=
-  forallb (fun w => option_Z_eqb (ropt (old_codon (snd (fst e)) false inc w))
-                                 (degenerate_codon_spec (ncbi_tbl (fst (fst e))) inc w)) (product3 iupac_syms).
-
 Lemma iupac_syms_no_gap a b c :
   In a iupac_syms -> In b iupac_syms -> In c iupac_syms -> has_gap [a; b; c] = false.
 Proof.
@@ -672,4 +661,90 @@ Proof.
   - apply str_eqb_eq in E. exfalso. apply Hn. exact E.
   - rewrite forallb_forall in H. specialize (H (ok, inc) (In_bools2 ok inc)).
     cbn [fst snd] in H. apply option_Z_eqb_sound, H.
+Qed.
+
+(* ------------------------------------------------------------------ alignment rows vs Sequence-level translation *)
+
+Definition drop_gaps (p : list Z) : list Z := filter (fun c => negb (c =? 45)) p.
+
+Lemma lookup_not_gap id aa st a b c :
+  In (id, aa, st) new_codes -> canonical a -> canonical b -> canonical c ->
+  (spec_lookup (ncbi_tbl id) [a; b; c] =? 45) = false.
+Proof.
+  intros Hin Ha Hb Hc.
+  destruct (codon_ok_split id aa [a; b; c] (codon_facts id aa st a b c Hin Ha Hb Hc)) as (_ & _ & _ & _ & H5 & _).
+  unfold ch_gap in H5. lia.
+Qed.
+
+Lemma drop_gaps_row id aa st ws :
+  In (id, aa, st) new_codes -> row_wf ws ->
+  drop_gaps (map (triplet_aa (ncbi_tbl id)) ws) = translate_spec (ncbi_tbl id) (row_residues ws).
+Proof.
+  intros Hin. unfold row_residues. induction 1 as [|w r Hw Hr IH]; [reflexivity|].
+  cbn [map filter]. destruct Hw as [->|(a & b & c & -> & Ha & Hb & Hc)].
+  - assert (Eg : is_gap_triplet gap_triplet = true) by reflexivity.
+    unfold triplet_aa at 1. rewrite Eg. cbn [negb drop_gaps filter Z.eqb]. exact IH.
+  - unfold triplet_aa at 1. rewrite (is_gap_triplet_codon a b c Ha). cbn [negb concat app].
+    change (translate_spec (ncbi_tbl id) (a :: b :: c :: concat (filter (fun w => negb (is_gap_triplet w)) r)))
+      with (spec_lookup (ncbi_tbl id) [a; b; c]
+            :: translate_spec (ncbi_tbl id) (concat (filter (fun w => negb (is_gap_triplet w)) r))).
+    unfold drop_gaps in *. cbn [filter]. rewrite (lookup_not_gap id aa st a b c Hin Ha Hb Hc). cbn [negb].
+    rewrite IH. reflexivity.
+Qed.
+
+Lemma has_stop_drop_gaps p : has_stop (drop_gaps p) = has_stop p.
+Proof.
+  unfold has_stop, drop_gaps. induction p as [|x p IH]; [reflexivity|].
+  cbn [filter existsb]. destruct (x =? 45) eqn:E; cbn [negb existsb].
+  - rewrite IH. replace (star =? x) with false; [reflexivity|]. unfold star. lia.
+  - rewrite IH. reflexivity.
+Qed.
+
+(** the residues of a trimmed row: the residues without their last codon when that is a stop *)
+Lemma residues_trim_row tbl ws :
+  row_wf ws ->
+  row_residues (trim_row tbl ws)
+  = if tstop tbl ws then firstn (length (row_residues ws) - 3) (row_residues ws) else row_residues ws.
+Proof.
+  induction 1 as [|w r Hw Hr IH]; [reflexivity|].
+  cbn [trim_row tstop]. destruct (forallb is_gap_triplet r && is_stop_triplet tbl w) eqn:E.
+  - cbn [orb]. apply andb_prop in E. destruct E as [Eg Es].
+    unfold is_stop_triplet in Es. apply andb_prop in Es. destruct Es as [Eng _].
+    apply (residues_nil_iff r Hr) in Eg.
+    destruct (triplet_ok_shape w Hw) as (a & b & c & ->).
+    unfold row_residues in *. cbn [filter]. destruct (is_gap_triplet [a; b; c]); [discriminate|].
+    assert (Egt : is_gap_triplet gap_triplet = true) by reflexivity. rewrite Egt. cbn [negb concat app].
+    rewrite Eg. reflexivity.
+  - cbn [orb]. unfold row_residues in *. cbn [filter].
+    destruct (negb (is_gap_triplet w)) eqn:Ew; cbn [concat]; rewrite IH; [|reflexivity].
+    destruct (tstop tbl r) eqn:Et; [|reflexivity].
+    destruct (triplet_ok_shape w Hw) as (a & b & c & ->). cbn [app length].
+    set (R := concat (filter (fun w0 => negb (is_gap_triplet w0)) r)) in *.
+    assert (HR : (3 <= length R)%nat).
+    { destruct R as [|x [|y [|z t]]] eqn:ER; cbn [length]; try lia; exfalso.
+      - assert (Hg : forallb is_gap_triplet r = true) by (apply (residues_nil_iff r Hr); exact ER).
+        rewrite (tstop_all_gaps tbl r Hg) in Et. discriminate.
+      - destruct (residues_canon r Hr) as [_ Hm]. unfold row_residues in Hm. fold R in Hm. rewrite ER in Hm. discriminate Hm.
+      - destruct (residues_canon r Hr) as [_ Hm]. unfold row_residues in Hm. fold R in Hm. rewrite ER in Hm. discriminate Hm. }
+    replace (S (S (S (length R))) - 3)%nat with (3 + (length R - 3))%nat by lia.
+    reflexivity.
+Qed.
+
+(** an alignment row translates to the Sequence-level translation of its residues, with "-" kept
+    where the row has gap triplets (and where the trimmed stop codon was) *)
+Lemma aln_row_is_sequence_level id aa st eff inc ws :
+  In (id, aa, st) new_codes -> row_wf ws ->
+  option_map drop_gaps (aln_row_spec (ncbi_tbl id) eff inc ws)
+  = stop_spec (ncbi_tbl id) eff inc true (row_residues ws).
+Proof.
+  intros Hin Hw. rewrite stop_spec_unfold. unfold aln_row_spec. cbv zeta.
+  set (ws' := if eff then trim_row (ncbi_tbl id) ws else ws).
+  assert (Hw' : row_wf ws') by (unfold ws'; destruct eff; [apply trim_row_wf|]; exact Hw).
+  assert (Hres : (if eff then trim_spec (ncbi_tbl id) (negb true) (row_residues ws) else Some (row_residues ws))
+                 = Some (row_residues ws')).
+  { unfold ws'. destruct eff; [|reflexivity]. unfold trim_spec.
+    destruct (residues_canon ws Hw) as [_ Hm]. rewrite Hm. cbn [Z.eqb]. f_equal.
+    rewrite (residues_trim_row _ ws Hw), <- (row_has_tstop_tstop _ ws Hw). reflexivity. }
+  rewrite Hres. rewrite <- (drop_gaps_row id aa st ws' Hin Hw'), has_stop_drop_gaps.
+  destruct (negb inc && has_stop (map (triplet_aa (ncbi_tbl id)) ws')); reflexivity.
 Qed.
